@@ -52,17 +52,35 @@ def s1(led, rid, ctx):
     fns = [lib.method("Solver", "satisfy"), lib.method("Solver", "satisfy_under_assumptions"),
            C04.optimise_fn(lib, "LinearSatUnsat"), C04.optimise_fn(lib, "LinearUnsatSat")]
     n = 0
-    for f in fns:
-        R = resolver(f)
-        snaps = []
-        for c in f.calls:
+    def own_sites(g):
+        Rg = resolver(g)
+        sn = []
+        for c in g.calls:
             if c.name == "update_best_solution_and_process":
-                snaps.append(c.bb)
+                sn.append(c.bb)
             if c.name in ("into", "from") and c.args:
-                e = R.operand(c.args[0])
+                e = Rg.operand(c.args[0])
                 if any(x.name == "get_solution_reference" for x in e.calls()):
+                    sn.append(c.bb)
+        rs = [c.bb for c in g.calls if c.name in ("restore_state_at_root", "backtrack")]
+        return sn, rs
+
+    for f in fns:
+        snaps, restores = own_sites(f)
+        # helpers of the same file: a helper that copies the solution before it restores counts as a copy,
+        # one that restores without having copied counts as a restore
+        for c in f.calls:
+            for h in lib.callees(c):
+                if h is f or h.file != f.file or h.kind == "Closure" or h in fns:
+                    continue
+                hs, hr = own_sites(h)
+                if not hs and not hr:
+                    continue
+                early = bool(hr) and h.cfg.reaches(0, hr, avoid=hs, strict=False)
+                if hs and not early and all(any(h.cfg.dominates(x, r) for x in hs) for r in h.cfg.returns):
                     snaps.append(c.bb)
-        restores = [c.bb for c in f.calls if c.name in ("restore_state_at_root", "backtrack")]
+                elif hr:
+                    restores.append(c.bb)
         label = (f.self_adt or "").rsplit("::", 1)[-1] + "::" + f.name
         for e in feasible_edges(f):
             n += 1
